@@ -64,7 +64,9 @@ def tree_tokens(t) -> str:
 
 # ------------------------------------------------------------------ implementation adapter
 
-def run_impl(tree, exts: str, mode: str) -> str:
+def run_impl(tree, exts: str, mode: str, late: int = 0) -> str:
+    """`late` > 0: the last `late` extensions are registered AFTER a first complete walk of the same visitor
+    instance (ExtList.add on a live visitor); the trace returned is that of the second walk"""
     from pydoctor import visitor as V
 
     log: List[str] = []
@@ -108,7 +110,17 @@ def run_impl(tree, exts: str, mode: str) -> str:
                     log.append("E%dd%d" % (idx, ob.id))
             return E
         classes.append(mk())
-    vis = Main(V.ExtList(*classes))
+    if late:
+        vis = Main(V.ExtList(*classes[:len(classes) - late]))
+        try:
+            vis.walkabout(N(tree))
+        except V.Visitor._TreePruningException:
+            pass
+        vis.extensions.add(*classes[len(classes) - late:])
+        vis.extensions.attach_visitor(vis)
+        del log[:]
+    else:
+        vis = Main(V.ExtList(*classes))
     root = N(tree)
     outcome = "return"
     try:
@@ -321,6 +333,25 @@ def run(ctx: Ctx) -> None:
         acts = [ctx.rng.choice(ACTS if ctx.rng.random() < 0.7 else "n") for _ in range(n)]
         ex = "".join(ctx.rng.choice(TIMINGS) for _ in range(ctx.rng.randint(0, 5)))
         cases.append((label(sh, acts), ex, ctx.rng.choice(["walkabout", "walk"])))
+    # extensions registered on a visitor that has already walked once (ExtList.add on a live visitor)
+    late_cases = []
+    for _ in range(600 if ctx.quick else 8000):
+        n = ctx.rng.randint(1, 6)
+        sh = rand_shape(ctx.rng, n)
+        acts = [ctx.rng.choice(ACTS if ctx.rng.random() < 0.6 else "n") for _ in range(n)]
+        ex = "".join(ctx.rng.choice(TIMINGS) for _ in range(ctx.rng.randint(1, 4)))
+        late_cases.append((label(sh, acts), ex, ctx.rng.randint(1, len(ex))))
+    for t, ex, late in late_cases:
+        req = "visitor walkabout %s %s" % (ex, tree_tokens(t))
+        out = run_impl(t, ex, "walkabout", late=late)
+        reqs.append(req)
+        impls.append(out)
+        payload.append({"tree": t, "exts": ex, "mode": "walkabout", "late": late})
+        ctx.case(req + "#late%d" % late, True)
+        ctx.count("mode:walkabout-after-late-add")
+        v = oracle(t, ex, out)
+        if v:
+            ctx.fail("late-extension:" + v[0], {"tree": t, "exts": ex, "mode": "walkabout", "late": late, "impl": out}, v[1])
     for t, ex, mode in cases:
         req = "visitor %s %s %s" % (mode, ex or "-", tree_tokens(t))
         out = run_impl(t, ex, mode)
@@ -377,7 +408,7 @@ def replay(ctx: Ctx, obj) -> int:
     if "tree" in inp:
         t = inp["tree"]
         t = tuple_tree(t)
-        out = run_impl(t, inp["exts"], inp.get("mode", "walkabout"))
+        out = run_impl(t, inp["exts"], inp.get("mode", "walkabout"), late=inp.get("late", 0))
         req = "visitor %s %s %s" % (inp.get("mode", "walkabout"), inp["exts"] or "-", tree_tokens(t))
         print("request:", req)
         print("impl   :", out)
